@@ -19,6 +19,7 @@ pub struct LoopSpec {
     pub ensures: Vec<Clause>,
     pub decreases: Option<String>,
     pub body: Vec<GhostStmt>,
+    pub init: Vec<GhostStmt>,
 }
 
 #[derive(Debug, Default, Clone)]
@@ -57,6 +58,7 @@ pub struct StructSpec {
     pub ghost_fields: Vec<(String, String, String)>, // name, type, init
     pub retype: Vec<(String, String)>,
     pub derive: Vec<String>,
+    pub rename: Option<String>,
 }
 
 #[derive(Debug, Default, Clone)]
@@ -94,6 +96,8 @@ pub struct Unit {
     pub poolcall: Vec<(String, String, String)>,
     pub unit_types: Vec<String>,
     pub methodfn: Vec<(String, String)>,
+    pub pathrename: Vec<(String, String)>,
+    pub strlits: bool,
 }
 
 fn indent_of(l: &str) -> usize {
@@ -237,6 +241,7 @@ fn parse_fn(head: &str, body: &[String]) -> FnSpec {
                         "ensures" => ls.ensures.extend(parse_clauses(&sub2, v2)),
                         "decreases" => ls.decreases = Some(r2),
                         "body" => ls.body.push(GhostStmt { text: block_text(&sub2), variants: v2 }),
+                        "init" => ls.init.push(GhostStmt { text: block_text(&sub2), variants: v2 }),
                         _ => panic!("unknown loop sub-directive {w2}"),
                     }
                 }
@@ -272,6 +277,7 @@ fn parse_struct(head: &str, body: &[String]) -> StructSpec {
                 s.retype.push((n.trim().to_string(), t.trim().to_string()));
             }
             "derive" => s.derive.extend(rest.split_whitespace().map(|x| x.to_string())),
+            "as" => s.rename = Some(rest),
             _ => panic!("unknown struct sub-directive {word}"),
         }
     }
@@ -331,6 +337,8 @@ pub fn parse_unit(text: &str) -> Unit {
             "variants" => {}
             "unittypes" => u.unit_types.extend(words),
             "methodfn" => u.methodfn.push((words[0].clone(), words[1].clone())),
+            "pathrename" => u.pathrename.push((words[0].clone(), words[1].clone())),
+            "strlits" => u.strlits = true,
             "poolcall" => u.poolcall.push((words[0].clone(), words[1].clone(), words[2].clone())),
             "lockinv" => u.lockinv.push((words[0].clone(), words[1..].join(" "))),
             "verbatim" => u.verbatim.push((variants, block_text(&body))),
